@@ -438,6 +438,11 @@ func (f simFactory) AssembleBlock(r basics.Round, _ []basics.Address) (agreement
 	}
 	ts := f.tag + 1000003*n.asmCount
 	n.asmCount++
+	if f.in.sim.cfg.Prop == "C07" {
+		// the twin comparison needs the environment (block pool) to answer the restored and the uncrashed node
+		// alike whatever each of them asked before: here assembly is a pure function of (node, round)
+		ts = f.tag
+	}
 	n.tmu.Unlock()
 	return simBlock{b: bookkeeping.Block{BlockHeader: bookkeeping.BlockHeader{Round: r, Branch: bookkeeping.BlockHash(prev), TimeStamp: ts,
 		UpgradeState: bookkeeping.UpgradeState{CurrentProtocol: Proto}}}}, nil
